@@ -9,7 +9,7 @@
   `atoms: HashMap<usize, Atom>` from which visited atoms are removed is the list `visited`
   of removed ids; the explicit `stack` and `chain` vectors are lists with the top first.
   The traversal loop is structurally recursive on fuel; `walk` supplies enough
-  (`Lemmas/WalkFuel.lean`), fuel exhaustion is a distinct `panic "fuel"` verdict.
+  (`Lemmas/WalkPanicL.lean`: the fuel is never exhausted on a well-formed graph), fuel exhaustion is a distinct `panic "fuel"` verdict.
 -/
 import Purr.Model.Builder
 import Purr.Model.Pool
@@ -101,7 +101,8 @@ def scanChild (sid tid : Nat) (k : AtomKind) : List Bond → Nat → AtomKind ×
 inductive Step
   | cont (s : WState) (evs : List Event)
   | err (e : WalkError) (evs : List Event)
-  | panic (site : String)
+  /-- a panic site reached, after these events had been handed to the follower -/
+  | panic (site : String) (evs : List Event)
 
 /-- one iteration of the `while let Some((sid, bond)) = stack.pop()` loop -/
 def wkStep (g : Graph) (s : WState) (sid : Nat) (bond : Bond) (rest : List (Nat × Bond)) : Step :=
@@ -109,16 +110,16 @@ def wkStep (g : Graph) (s : WState) (sid : Nat) (bond : Bond) (rest : List (Nat 
   else if bond.tid = sid then .err (.loop sid) []
   else
     match unwind sid s.chain 0 with
-    | none => .panic "walk.rs:chain head"
+    | none => .panic "walk.rs:chain head" []
     | some (chain, popcount) =>
       let pops : List Event := if popcount > 0 then [.pop popcount] else []
       if s.visited.contains bond.tid then
         match s.pool.hit (sid, bond.tid) with
         | .ok r pool => .cont { s with stack := rest, chain := chain, pool := pool } (pops ++ [.join bond.kind r])
-        | .panic _ _ => .panic "join_pool.rs:rnum"
+        | .panic _ _ => .panic "join_pool.rs:rnum" pops
       else
         match g[bond.tid]? with
-        | none => .panic "walk.rs:atoms"
+        | none => .panic "walk.rs:atoms" pops
         | some child =>
           let (kind, backs, pushes) := scanChild sid bond.tid child.kind child.bonds 0
           match backs with
@@ -138,7 +139,7 @@ def rootLoop (g : Graph) : Nat → WState → List Event × WalkVerdict × WStat
     | (sid, bond) :: rest =>
       match wkStep g s sid bond rest with
       | .err e evs => (evs, .err e, s)
-      | .panic p => ([], .panic p, s)
+      | .panic p evs => (evs, .panic p, s)
       | .cont s' evs =>
         let (es, v, s'') := rootLoop g fuel s'
         (evs ++ es, v, s'')
